@@ -128,9 +128,36 @@ def set_at(v, path, new):
     return v
 
 
+def containers(v, path=()):
+    t = v[0]
+    if t == "W":
+        yield from containers(v[2], path + (2,))
+    elif t in ("S", "T"):
+        yield path
+        for i, x in enumerate(v[1]):
+            yield from containers(x, path + (1, i))
+    elif t == "F":
+        yield path
+        for i, (k, x) in enumerate(v[1]):
+            yield from containers(k, path + (1, i, 0))
+            yield from containers(x, path + (1, i, 1))
+
+
 def near_miss(rng, v):
-    """a value differing from v in exactly one leaf (or one empty container)"""
+    """a value differing from v in exactly one leaf (or one empty container), or with one member of
+    one container dropped / added (sub- and supersets, prefixes, restrictions)"""
     v = json.loads(json.dumps(v))
+    cs = list(containers(v))
+    if cs and rng.random() < 0.35:
+        p = rng.choice(cs)
+        c = get_at(v, p)
+        ms = list(c[1])
+        if ms and rng.random() < 0.5:
+            del ms[rng.randrange(len(ms))]
+        else:
+            extra = gen_leaf(rng)
+            ms.insert(rng.randint(0, len(ms)), [extra, gen_leaf(rng)] if c[0] == "F" else extra)
+        return set_at(v, p, [c[0], ms])
     ps = list(leaves(v))
     p = rng.choice(ps)
     old = get_at(v, p)
